@@ -4,8 +4,22 @@ import (
 	"fmt"
 	"math"
 	"math/rand"
+	"os"
+	"strconv"
 	"strings"
 )
+
+// the two flush thresholds as read from the source by translate/gen_decode_consts (checks/c03.py passes them in
+// the environment): the bodies meant to cross them are sized relative to them
+var thresholdBytes = envInt("C03_THRESHOLD", 1<<20)
+var flushLimit = envInt("C03_FLUSH_LIMIT", 1000)
+
+func envInt(name string, def int) int {
+	if v, err := strconv.Atoi(os.Getenv(name)); err == nil && v > 0 {
+		return v
+	}
+	return def
+}
 
 var namesAny = []string{"app", "job", "level", "host", "instance", "_private", "x9", "9lives", "with-dash",
 	"dotted.name", "héllo", "名前", "a b", "__name__", "CamelCase", "é", "k8s/pod", "1", "-"}
@@ -172,27 +186,31 @@ func genLoki(r *rand.Rand, c *Case, pb bool) {
 
 // bodies that cross the 1 MiB flush threshold of onEntries
 func genLokiBig(r *rand.Rand, c *Case, kind int) {
+	total := 0
 	if kind == 0 {
 		c.Class = "big-lines"
-		ns := 2 + r.Intn(2)
-		for i := 0; i < ns; i++ {
+		want := thresholdBytes + thresholdBytes/4 + r.Intn(thresholdBytes)
+		for i := 0; total < want; i++ {
 			s := LStream{Labels: []KV{{"app", Str(fmt.Sprintf("big%d", i))}, {"job", "j"}}}
 			ne := 1 + r.Intn(3)
 			for j := 0; j < ne; j++ {
-				l := fmt.Sprintf("s%d-e%d-", i, j) + strings.Repeat("x", 250000+r.Intn(150000))
+				l := fmt.Sprintf("s%d-e%d-", i, j) + strings.Repeat("x", thresholdBytes/4+r.Intn(thresholdBytes/8+1))
 				s.Entries = append(s.Entries, LEntry{Ts: genTs(r, 0), Line: sp(l)})
+				total += len(l)
 			}
 			c.Body.Loki = append(c.Body.Loki, s)
 		}
 		return
 	}
 	c.Class = "many-entries"
-	ns := 20 + r.Intn(10)
-	for i := 0; i < ns; i++ {
+	want := thresholdBytes + thresholdBytes/2 + r.Intn(thresholdBytes/2+1)
+	for i := 0; total < want; i++ {
 		s := LStream{Labels: []KV{{"app", Str(fmt.Sprintf("m%d", i%17))}}}
 		ne := 70 + r.Intn(30)
 		for j := 0; j < ne; j++ {
-			s.Entries = append(s.Entries, LEntry{Ts: genTs(r, 0), Line: sp(fmt.Sprintf("l%d-", j) + strings.Repeat("y", 520+r.Intn(400)))})
+			l := fmt.Sprintf("l%d-", j) + strings.Repeat("y", 520+r.Intn(400))
+			s.Entries = append(s.Entries, LEntry{Ts: genTs(r, 0), Line: sp(l)})
+			total += len(l) + 26
 		}
 		c.Body.Loki = append(c.Body.Loki, s)
 	}
@@ -226,9 +244,9 @@ func genPrw(r *rand.Rand, c *Case, kind int) {
 		}
 	case 1: // 999 one-sample series, then one series with two samples: the 1000th point falls inside the last series
 		c.Class = "flush-mid-series-999+2"
-		for i := 0; i < 1000; i++ {
+		for i := 0; i < flushLimit; i++ {
 			n := 1
-			if i == 999 {
+			if i == flushLimit-1 {
 				n = 2
 			}
 			s := mk(i, n)
@@ -238,21 +256,24 @@ func genPrw(r *rand.Rand, c *Case, kind int) {
 	case 2: // the running point counter crosses 1000 inside some series
 		c.Class = "flush-mid-series"
 		total := 0
-		for i := 0; total < 1000+r.Intn(1500); i++ {
-			n := 1 + r.Intn(450)
+		for i := 0; total < flushLimit+r.Intn(flushLimit*3/2); i++ {
+			n := 1 + r.Intn(flushLimit*9/20+1)
 			c.Body.Prw = append(c.Body.Prw, mk(i, n))
 			total += n
 		}
 	case 3: // the 1000th point is the last sample of a series
 		c.Class = "flush-at-series-end"
-		a := 1 + r.Intn(998)
-		c.Body.Prw = append(c.Body.Prw, mk(0, a), mk(1, 1000-a), mk(2, 1+r.Intn(5)))
+		a := 1
+		if flushLimit > 2 {
+			a = 1 + r.Intn(flushLimit-2)
+		}
+		c.Body.Prw = append(c.Body.Prw, mk(0, a), mk(1, flushLimit-a), mk(2, 1+r.Intn(5)))
 	case 5: // the 1000th point is the first of several samples of the second series
 		c.Class = "flush-mid-series-999+k"
-		c.Body.Prw = append(c.Body.Prw, mk(0, 999), mk(1, 2+r.Intn(4)))
+		c.Body.Prw = append(c.Body.Prw, mk(0, flushLimit-1), mk(1, 2+r.Intn(4)))
 	default:
 		c.Class = "long-series"
-		c.Body.Prw = append(c.Body.Prw, mk(0, 2000+r.Intn(1500)), mk(1, r.Intn(3)))
+		c.Body.Prw = append(c.Body.Prw, mk(0, 2*flushLimit+r.Intn(flushLimit*3/2)), mk(1, r.Intn(3)))
 	}
 }
 
